@@ -48,7 +48,7 @@ PROPS = {"C15": dict(
         "a copy is taken with CopyState and the context with EpochsContext.Clone; the shared, append-only pubkey cache may know keys beyond a state's registry (documented by zrnt, guarded at use; exactness of the cache is C16)",
         "electra states are exercised as containers only (the repository does not process electra)",
     ],
-    rule="per view type (all 29 container views: 6 fork states + 23 typed views) x rounds, alternating random and default (all-zero) initial values and the minimal preset and a custom preset whose vector lengths are not powers of two (96/72/48/24; element indices in the top part of the vectors and far beyond their length): the value is given field by field from the struct side and loaded from bytes; every getter/setter/special method found by reflection over the view's method set; for every setter repeated writes whose new value shares components with the stored one (same value, one component changed, random subset changed); element accessors of roots/mixes/slashings/balances/scores/participation flags/validators, appends and resets of the list sub-views; Raw() digests. Copy experiments: kick-started chains of every fork (setters, appends, ProcessSlots across epochs, both directions, sibling copies); generated valid chains (internal/chain) where four siblings take the chain's own block / a different valid block / a corrupted block / empty slots, incl. first blocks of fork epochs and deposit blocks; conflicting deposit histories between an original and its copy, the copy compared with a reference whose context was computed from scratch. Non-trivial = executed by Go (not bad-op); distinct = (line number, op) since sequences are stateful",
+    rule="per view type (all 29 container views: 6 fork states + 23 typed views) x rounds, alternating random and default (all-zero) initial values and the minimal preset and a custom preset whose vector lengths are not powers of two (96/72/48/24; element indices in the top part of the vectors and far beyond their length): the value is given field by field from the struct side and loaded from bytes; every getter/setter/special method found by reflection over the view's method set; for every setter repeated writes whose new value shares components with the stored one (same value, one component changed, random subset changed); element accessors of roots/mixes/slashings/balances/scores/participation flags/validators, appends and resets of the list sub-views; Raw() digests; held results: the result of every getter (and its Raw()) is snapshotted, the same getter is read on another value of the type (extra_data of length 0/5/32/other) and again on this one, and the held result must still serialise to its snapshot. Copy experiments: kick-started chains of every fork (setters, appends, ProcessSlots across epochs, both directions, sibling copies); generated valid chains (internal/chain) where four siblings take the chain's own block / a different valid block / a corrupted block / empty slots, incl. first blocks of fork epochs and deposit blocks; conflicting deposit histories between an original and its copy, the copy compared with a reference whose context was computed from scratch. Non-trivial = executed by Go (not bad-op); distinct = (line number, op) since sequences are stateful",
     manifest=dict(
         level_text="Lean theorems over tables regenerated from the Go source on every run: every index constant is its field's position, every accessor of every fork's state view and of every typed sub-view touches exactly the field its name denotes through a wrapper of that field's type; generic get/set laws of the container model; plus a differential run driving every accessor found by reflection and copy experiments on real chains",
         level_note="copy independence is a theorem only about the value model (copy_independent_partial): structural sharing inside ztyp and slice aliasing in the shallow context clone are runtime behaviour, observed by the copy experiments only",
